@@ -14,22 +14,22 @@ CHECKS = {
  "C01": dict(
    level="model_checking", design_ref="6 (C01), 3.2, 3.3",
    text="TLC checks exhaustively, on a line-by-line TLA+ transcription of the BDS traversal over a symbolic Merkle tree (spec/Bds.tla, XmssKey.tla), that after every history of Sign/SetIndex calls the key holds the true authentication path of its index (all histories for h=4,6; jump classes h=8; all indices h<=14). The model is bound to the code by trace validation: real keys are walked through every index (real hashing h<=10, synthetic leaves h<=14) and every single forward jump (h=4,6), every call is logged with the signature's projected authentication path, xmss.Verify's answers and the full projected BDS state, and TLC explains each event with the spec's operators applied to the previous logged state.",
-   note="Trusted: the projection of 32-byte values to tree nodes uses a full tree built with the library's own genLeafWOTS/hashH (their correctness is C06's business); heights 16..30 are not walked (control flow depends only on (h, index history)); hash functions are sampled per height.",
+   note="Trusted: the projection of 32-byte values to tree nodes uses a full tree built with the library's own genLeafWOTS/hashH (their correctness is C06's business); three kinds of trees are walked: real (h <= 10, Verify consulted), synthetic leaves (h <= 22) and positional trees in which nothing is hashed (h = 24 to the end of the key's life; 26..30 key generation, the index carries, a 2^24-round jump), see DESIGN 11.7; hash functions are sampled per height.",
    technique="explicit TLA+ spec + TLC exhaustive model checking; trace validation of recorded executions of the real code against the spec (TraceXmssKey.tla)"),
  "C02": dict(
    level="model_checking", design_ref="6 (C02), 3.3",
    text="TLC checks on XmssKey.tla, for every history over {Sign, SetIndex(j)} with j ranging over the whole legal range, its borders and 2^31-1 (h=4,6 exhaustive), that the key refines the counter automaton of the property (PROPERTY CounterSpec), refusals preserve state, exhaustion is final and emitted indices strictly increase. Real keys are driven through exhaustive walks, all jumps and seeded random call sequences around the guard borders (0, idx-1, idx, 2^h-1, 2^h, 2^31, 2^32-1) to exhaustion and beyond; each logged call (result class, index, embedded signature index, byte-exact before/after snapshot comparison, digest of all getters) is validated by TLC against the automaton.",
-   note="Histories on the real code are exhaustive only for single calls from every index at h=4,6 and otherwise seeded samples; keys with h>10 are never built.",
+   note="Histories on the real code are exhaustive only for single calls from every index at h=4,6 and otherwise seeded samples; taller keys (h = 18, 20, 26; thorough 24, 30) have synthetic or positional trees; keys whose descriptor names an unimplemented hash function are walked as counters only. The counter abstraction is proved inductive for every tree size with Apalache (XmssCounter.tla).",
    technique="explicit TLA+ spec + TLC (refinement of a counter automaton, action properties); trace validation of the real code's call histories"),
  "C08": dict(
    level="model_checking", design_ref="6 (C08), 3.4",
    text="TLC checks on Wallet.tla (two objects of one seed; Sign, SetIndex in one or several jumps, Crash, Rebuild from seed / extended seed / mnemonic through the concrete descriptor codec) that the state of any live object equals the canonical state after idx signatures of a fresh key, for every interleaving (h=4 all jumps, h=6 jump classes); SignAdvance and JumpAdvance are separate transcriptions of the two copies of the traversal step, so their agreement is a checked fact. On the real code, for every crash index the object is rebuilt three ways (seed + one jump, extended seed + two jumps, mnemonic + signatures + jump) and must reproduce the original's signatures byte for byte (digest) and its live state; TLC-generated wallet behaviours (TLC -simulate on SimWallet.tla) are executed on real objects; every event is validated by TraceXmssKey.tla, which keeps per-seed tables index -> live state and (index, message) -> signature digest.",
-   note="Signature equality after a crash is compared for a window of indices in the quick tier (whole remaining life at h=6/8 seam); heights above 10 are not rebuilt.",
+   note="Signature equality after a crash is compared for a window of indices in the quick tier (whole remaining life at h=6/8 seam); heights 18 and 24 (thorough 20, 28) are rebuilt with synthetic / positional trees around index 2^16, one object from the extended seed.",
    technique="explicit TLA+ spec + TLC exhaustive model checking; trace validation with per-seed ghost tables; TLC-generated behaviours replayed into the real code"),
  "C09": dict(
    level="model_checking", design_ref="6 (C09), 3.4-3.6",
    text="Design: TLC checks that the descriptor codec round-trips for every value of its four nibbles (MCAddress, 65536 states), that a wallet rebuilt through any export kind gets the original parameters (Wallet.tla, DescriptorRoundTrip / RebuildPreservesIdentity) and that the mnemonic codec is a bijection (MCMnemonic). Conformance: real XMSS keys (h=4,6(,8) x 3 hash functions, from seeds and from fresh randomness) and Dilithium keys are re-created from every secret they export through the matching constructor; TLC (TraceRecover.tla) requires equal public key, address, secret key, seed and signatures (index 0 and after a jump; detached and sealed) and the specified layout of extended seed, mnemonic and hex seed; for all heights 0..30 the export/parse path is exercised without building a tree.",
-   note="Seeds are sampled (they only flow into SHAKE); equality is compared on SHA-256 digests; keys are built only for h<=8.",
+   note="Seeds are sampled (they only flow into SHAKE); equality is compared on SHA-256 digests; real keys are built for h <= 8, h = 12 (thorough 10..16) with synthetic leaves; the descriptor path covers every height.",
    technique="explicit TLA+ specs (Descriptor, Mnemonic, Wallet) + TLC; trace validation of real export/re-create runs (TraceRecover.tla)"),
  "C10": dict(
    level="model_checking", design_ref="6 (C10), 3.6",
@@ -78,7 +78,7 @@ CHECKS = {
    technique="explicit TLA+ definitions + TLC exhaustive over residues, Apalache for the 64-bit reduction; complete function tables of the real code validated as traces"),
  "C13": dict(
    level="model_checking", design_ref="6 (C13), 3.10",
-   text="DilithiumPack.tla states bit packing once (value i occupies bits [i*w,(i+1)*w) of a little-endian stream); each library packer is PackBits(width, offset - c). Design: TLC checks unpack(pack(v)) = v and pack(unpack(b)) = b for every lane of an 8-value group over all values (thorough: all 2^20 z values per lane) with extreme neighbours, and the HintCodec round trips. Conformance through the aliases: per packer, extremes and one-hot values in every lane over four backgrounds, every coefficient position with both extremes, random polynomials, arbitrary byte strings decoded and re-encoded; hint vectors of weights 0,1,2,74,75,76,80 in four shapes through packSig/unpackSig (heavier than OMEGA must not be accepted); genuine, z-randomised and hint-mutated signatures through unpackSig and packSig again; public/secret key layouts; every event recomputed by TLC (TraceDilPack.tla).",
+   text="DilithiumPack.tla states bit packing once (value i occupies bits [i*w,(i+1)*w) of a little-endian stream); each library packer is PackBits(width, offset - c). Design: TLC checks unpack(pack(v)) = v and pack(unpack(b)) = b for every lane of an 8-value group over all values (thorough: every 7th of the 2^20 z values per lane) with extreme neighbours, and the HintCodec round trips. Conformance through the aliases: per packer, extremes and one-hot values in every lane over four backgrounds, every coefficient position with both extremes, random polynomials, arbitrary byte strings decoded and re-encoded; hint vectors of weights 0,1,2,74,75,76,80 in four shapes through packSig/unpackSig (heavier than OMEGA must not be accepted); genuine, z-randomised and hint-mutated signatures through unpackSig and packSig again; public/secret key layouts; every event recomputed by TLC (TraceDilPack.tla).",
    note="Positions are covered by loop uniformity plus every position with both extremes; whole-signature re-encoding compared on digests.",
    technique="explicit TLA+ spec of the generic bit packer and hint codec + TLC; trace validation of the real packers/unpackers"),
  "C06": dict(
